@@ -28,7 +28,7 @@ def wide_frame_jobs(chk, tier, seed, rng):
     loops), the same with one segment removed (open paths) or added, judged by TLC (Trace_Patterns, frame mode)"""
     from harness.common import write_ndjson
     from harness.tlc import run_tlc, MachineryError
-    shapes = [(2, 3), (3, 2)] if tier == "quick" else [(2, 3), (3, 2), (2, 4), (4, 2), (3, 3)]
+    shapes = [(2, 3), (3, 2), (6, 7)] if tier == "quick" else [(2, 3), (3, 2), (2, 4), (4, 2), (3, 3), (6, 7), (7, 6)]
     recs, objs = [], {}
     for (h, w) in shapes:
         g = lattice(h, w)
@@ -55,6 +55,10 @@ def wide_frame_jobs(chk, tier, seed, rng):
         pats = sorted((sorted(p) for p in pats if p), key=lambda p: (len(p), p))
         rng.shuffle(pats)
         pats = pats[: 120 if tier == "quick" else 1500]
+        if h * w > 20:
+            # scale-up frame (its auxiliary graph has more than 256 nodes): a few drawings, plus far-apart strands
+            m = len(g["edges"])
+            pats = pats[:8] + [[0], [0, m - 1], [1, m - 2], sorted(set(pats[0]) | {m - 1}), list(range(m))]
         extra = []
         for p in pats[: len(pats) // 2]:
             q = list(p)
